@@ -302,7 +302,7 @@ def run_c20(t, tier, res):
     res.digest = digest_of([tree_snapshot(os.path.join(wr, "Rules")), [v.as_dict() for v in res.violations]])
 
 
-def edit_step(t, res, wr, src, step, all_args):
+def edit_step(t, res, wr, src, step, all_args, guess_cap=20000):
     """one edit_rules.main() process image on ruleset `src`; returns (ruleset to edit next, lines before, lines kept, shape)
     or None after a violation"""
     rdir = os.path.join(wr, "Rules", src)
@@ -392,7 +392,7 @@ def edit_step(t, res, wr, src, step, all_args):
                 pcfg = guesser.load(os.path.join(wr, "Rules", target), skip_brute=True)
                 q = PcfgQueue(pcfg)
                 nguess = 0
-                while nguess < 20000:
+                while nguess < guess_cap:
                     item = q.next()
                     if item is None:
                         break
@@ -433,7 +433,52 @@ def run_one(tape, tier, prop):
 # C17 across real processes: "the first N of the unbounded list" and "the same list to a file" are statements about
 # separate invocations of prince_ling.py, each a fresh interpreter with its own string-hash seed
 
+def shipped_edit_job(name, seed):
+    """a history of 2-3 edits on a scratch copy of a shipped ruleset (11 000 - 37 000 base structures of every shape the
+    trainer writes), judged by the same edit_step oracle"""
+    import shutil
+    from .. import bigworld
+    from ..tape import Tape
+    t = Tape(seed=seed)
+    res = RunResult()
+    wr = scratch.fresh_disk()
+    shutil.copytree(bigworld.shipped_dir(name), os.path.join(wr, "Rules", "S0"))
+    src = "S0"
+    all_args = []
+    with guesser.streams():
+        for step in range(t.between(2, 3)):
+            out = edit_step(t, res, wr, src, step, all_args, guess_cap=3000)
+            if out is None:
+                break
+            src, n_orig, n_kept, _shape = out
+            if n_kept == 0:
+                break
+    shutil.rmtree(os.path.join(wr, "Rules"), ignore_errors=True)
+    return {"name": name, "edits": all_args, "violations": [v.as_dict() for v in res.violations if v.prop == "C20" and v.key is None],
+            "guesses": res.stats.get("guesses_length_checked", 0)}
+
+
+def shipped_edit_phase(tier, base_seed):
+    from .. import bigworld
+    names = bigworld.available()
+    out = {"shipped_ruleset_edit_histories": 0, "shipped_ruleset_edits": 0, "shipped_ruleset_guess_lengths_checked": 0, "violations": []}
+    if not names:
+        return out
+    jobs = [(names[(base_seed + i) % len(names)], base_seed * 7001 + 11 + i) for i in range(1 if tier == "quick" else 12)]
+    for r in bigworld._fan_out(shipped_edit_job, jobs, workers=6):
+        out["shipped_ruleset_edit_histories"] += 1
+        out["shipped_ruleset_edits"] += len(r["edits"])
+        out["shipped_ruleset_guess_lengths_checked"] += r["guesses"]
+        for v in r["violations"][:1]:
+            v = dict(v, kind="shipped_ruleset:" + v["kind"])
+            v["detail"] = dict(v["detail"], ruleset=r["name"], edits=repr(r["edits"]))
+            out["violations"].append({"seed": base_seed, "tape": [], "violation": v, "case": None})
+    return out
+
+
 def extra_phase(tier, base_seed, prop="C17"):
+    if prop == "C20":
+        return shipped_edit_phase(tier, base_seed)
     if prop != "C17":
         return {}
     import shutil
